@@ -1627,7 +1627,7 @@ impl Prop for C17 {
 
     fn describe(&self) -> Describe {
         Describe {
-            rule: "one case = (entry point among the six solve/solve_jacobian methods, configuration, dimension, tol, delta, max_iter, guess, scripted function, fault list). Entry points and configurations are cycled by run index (1/5 in-basin, 1/5 anywhere, 3/5 hostile); everything else is drawn. The scripted function is the simulated peer: polynomials with separated roots in product form, exp/sin equations, strictly diagonally dominant nonlinear systems (dimension 1..6, 8 in a few thorough runs), root-free / non-differentiable / constant scripts, with NaN/+-Inf/1e300 injected at a chosen evaluation index, at a chosen user-Jacobian evaluation, or everywhere inside a chosen region. Each case calls the real solver 2..5 times (replay, restart composition, one-step). Distinct = hash of every field of the case; all cases are non-trivial.".into(),
+            rule: "one case = (entry point among the six solve/solve_jacobian methods, configuration, dimension, tol, delta, max_iter, guess, scripted function, fault list). Entry points and configurations are cycled by run index (1/5 in-basin, 1/5 anywhere, 3/5 hostile); everything else is drawn. The scripted function is the simulated peer: polynomials with separated roots in product form, exp/sin equations, strictly diagonally dominant nonlinear systems (dimension 1..6, 8 in a few thorough runs; 40% with equations shuffled and negated, 25% scaled down by powers of two overall or equation by equation), root-free / non-differentiable / constant scripts, with NaN/+-Inf/1e300 injected at a chosen evaluation index, at a chosen user-Jacobian evaluation, or everywhere inside a chosen region. Each case calls the real solver 2..5 times (replay, restart composition, one-step). Distinct = hash of every field of the case; all cases are non-trivial.".into(),
             assumptions: vec![
                 "work bound: f evaluations <= 2*E*max_iter + 2 with E = 3 (scalar), n+2 (finite-difference systems), 1 (+ at most 2*max_iter+1 user-Jacobian calls); with max_iter = 0 at most one evaluation and the payload must be the guess. The property names no constant; runaway schemes are caught by the callback's own budget (100*(n+2)*(max_iter+1)) and silent loops by the watchdog".into(),
                 "restart composition: Err(x_k) with budget k implies solve(budget 1 from x_k) == solve(budget k+1 from the guess), bit for bit (NaN == NaN): holds for any memoryless iteration whose failure payload is its last iterate; not applied under evaluation-index-keyed faults (the environment is then not a function of x)".into(),
